@@ -123,9 +123,14 @@ func nameList(xs ...string) []byte { return wStr([]byte(strings.Join(xs, ","))) 
 
 // kexInit builds a KEXINIT payload offering exactly one kex method and ssh-ed25519.
 func kexInit(r *hx.Rand, kex string, extra []string) []byte {
+	return kexInitList(r, append([]string{kex}, extra...))
+}
+
+// kexInitList: the kex_algorithms name-list is given verbatim (marker positions, duplicates, fillers)
+func kexInitList(r *hx.Rand, kexAlgos []string) []byte {
 	p := []byte{20}
 	p = append(p, r.Bytes(16)...)
-	p = append(p, nameList(append([]string{kex}, extra...)...)...)
+	p = append(p, nameList(kexAlgos...)...)
 	p = append(p, nameList("ssh-ed25519")...)
 	for i := 0; i < 2; i++ {
 		p = append(p, nameList("aes128-ctr", "aes128-gcm@openssh.com")...)
@@ -360,6 +365,9 @@ func scriptedPeer(peerIsClient bool, conn io.ReadWriter, o hx.Op, a *action, r *
 		extra = append(extra, "kex-strict-s-v00@openssh.com")
 	}
 	mine := kexInit(r, kex, extra)
+	if o.Has("kl") {
+		mine = kexInitList(r, o.List("kl"))
+	}
 	// the real endpoint sends its KEXINIT spontaneously
 	theirs, err := ad.ReadPacket()
 	if err != nil || theirs[0] != 20 {
@@ -720,6 +728,45 @@ func gen(g *hx.Gen) {
 						p1, p2 := r.Intn(n), r.Intn(n)
 						emit(m, mode, strict, "-", "ins", p1, r.PickInt(2, 4), ext+" pos2="+strconv.Itoa(p2)+" ty2="+strconv.Itoa(r.PickInt(2, 4)))
 					}
+				}
+			}
+		}
+	}
+	// position of the pseudo-algorithm markers in the peer's kex_algorithms list
+	for _, m := range kexes[:1] {
+		for _, mode := range []string{"peers", "peerc"} {
+			mk, wrong := "kex-strict-s-v00@openssh.com", "kex-strict-c-v00@openssh.com"
+			ei := "ext-info-s"
+			if mode == "peerc" {
+				mk, wrong, ei = wrong, mk, "ext-info-c"
+			}
+			f := func(i int) string { return fmt.Sprintf("filler-%d@verif", i) }
+			lists := [][]string{
+				{m}, {mk}, {mk, m}, {m, mk}, {m, wrong}, {m, ei}, {ei, m},
+				{mk, m, f(1)}, {m, mk, f(1)}, {m, f(1), mk}, {mk, mk, m}, {m, mk, mk}, {mk, m, ei}, {m, ei, mk}, {ei, mk, m}, {mk, ei, m},
+				{mk, f(1), f(2), f(3), m, f(4), f(5)}, {m, f(1), f(2), mk, f(3), ei, f(4)}, {m, f(1), f(2), f(3), f(4), f(5), mk},
+				{f(1), mk, f(2), m, f(3), mk, f(4)}, {ei, f(1), m, f(2), f(3), f(4), f(5)}, {m, f(1), f(2), f(3), f(4), mk, ei},
+				{m, f(1), f(2), f(3), f(4), ei, mk}, {mk, ei, f(1), f(2), f(3), f(4), m}, {m, f(1), f(2), f(3), f(4), f(5), f(6)},
+			}
+			for _, kl := range lists {
+				pos := "absent"
+				for i, n := range kl {
+					if n == mk {
+						switch {
+						case i == 0:
+							pos = "first"
+						case i == len(kl)-1:
+							pos = "last"
+						default:
+							pos = "middle"
+						}
+						break
+					}
+				}
+				for _, act := range []string{"none", "ins"} {
+					emit(m, mode, "-", "-", act, 1, 2, " kl="+strings.Join(kl, ","))
+					g.Stat(fmt.Sprintf("pair.marker-%s+len%d", pos, len(kl)))
+					g.Stat("pair.marker-" + pos + "+" + mode)
 				}
 			}
 		}
